@@ -30,7 +30,7 @@ rule("C01.k", "the nodal restrictions are rebuilt from the mapping of the proble
 rule("C10.e", "price data received by a set-up is never modified in place (directly or through an alias / element)", floor=6)
 rule("C10.f", "a mutable default argument (list / dict / object created in the signature) is never mutated", floor=10)
 rule("C03.f", "optimize() does not modify the problem it is called on (mapping, c, l, u, b are only read or copied): a relaxed "
-              "solve must not clear the boolean flags of the problem itself", floor=1)
+              "solve must not clear the boolean flags of the problem itself", floor=1, props=["C03", "C05", "C06", "C20"])
 rule("C15.c", "the fix_time_window argument is not rewritten by the set-up (same window reused for every interval of a "
               "split problem, and by the caller afterwards)", floor=2, props=["C15", "C14"])
 
